@@ -147,7 +147,14 @@ def sym_validate(instance, schema, *args, **kw):
             cls, type_checker=cls.TYPE_CHECKER.redefine_many(
                 {'integer': _is_int, 'number': _is_num}))
     v = ext(schema, *args, **kw)
-    err = jsonschema.exceptions.best_match(v.iter_errors(instance))
+    if _has_sym(instance):
+        # jsonschema.validate reports the *best* of all errors, which makes
+        # every symbolic leaf fork independently (3^leaves rejected paths
+        # that differ only in the error text).  Whether there is an error
+        # does not depend on that choice: stop at the first one.
+        err = next(v.iter_errors(instance), None)
+    else:
+        err = jsonschema.exceptions.best_match(v.iter_errors(instance))
     if err is not None:
         raise err
 
